@@ -463,7 +463,9 @@ func (r *srvRun) step(st map[string]any, ev map[string]any) error {
 		ip, _ := st["addr"].(string)
 		// time is the environment: a planted short ban that has run out in real time is reported as an event
 		if t, ok := r.soon[ip]; ok {
-			if d := time.Until(t); d < 400*time.Millisecond {
+			// a wide ambiguous window: if less than 1.5 s of the ban are left the driver waits it out, so that the
+			// server's own clock reading cannot disagree with the reported class even on a heavily loaded machine
+			if d := time.Until(t); d < 1500*time.Millisecond {
 				if d > -150*time.Millisecond {
 					time.Sleep(d + 150*time.Millisecond)
 				}
@@ -687,7 +689,7 @@ func (r *srvRun) step(st map[string]any, ev map[string]any) error {
 			t := now.Add(30 * time.Minute)
 			until = &t
 		case "soon":
-			t := now.Add(2500 * time.Millisecond)
+			t := now.Add(4 * time.Second)
 			until = &t
 			r.soon[ip] = t
 		case "past":
